@@ -2,6 +2,8 @@
    minesweeper.instance -/
 import JumanjiModel.Bridge.Json
 import JumanjiModel.Env.Minesweeper.Model
+import JumanjiModel.Env.Minesweeper.Bounds
+import JumanjiModel.Bridge.PuzzleBounds
 open Lean Jb
 
 namespace Jb.Minesweeper
@@ -80,7 +82,13 @@ def opInstance : Op := fun j => do
               ("fresh_board", jBool (decide (InstanceOK cfg s))),
               ("consistent", jBool (decide (Consistent cfg s)))])
 
+/-- C01 bounds op: {"cfg"} → the proved interval of every observation leaf -/
+def opBounds : Op := fun j => do
+  let cfg ← getCfg (← field j "cfg")
+  pure (jBoundsTable (obsBounds cfg))
+
 def ops : List (String × Op) :=
   [("minesweeper.step", opStep), ("minesweeper.state", opState), ("minesweeper.judge", opJudge),
-   ("minesweeper.instance", opInstance)]
+   ("minesweeper.instance", opInstance),
+   ("minesweeper.bounds", opBounds)]
 end Jb.Minesweeper
